@@ -1,6 +1,185 @@
-/- C13 — statements are being added as the proofs land (see DESIGN.md §6). -/
+/-
+  C13 — source text is inert data: the structure of the emitted program does not depend
+  on the contents of any string in the experiment source.  Replacing every string of the
+  source (predicate operands, tuple members, group names) by arbitrary other text changes
+  nothing of the emitted lines except the constants themselves: same lines, same
+  indentation, same names, same operators, same number of groups, same weights; and
+  whether the generator succeeds, and with which error it fails, is the same too.
+  Proofs in `Pyab/Proofs/Mask.lean`.
+-/
+import Pyab.Generated.Config
+import Pyab.Properties.C02
+import Pyab.Properties.C05
+import Pyab.Proofs.Mask
 namespace Pyab.Properties
+open Pyab Pyab.Spec Pyab.Proofs
 
-theorem C13_placeholder : True := trivial
+/-! ### concrete values used by the examples -/
+
+/-- text that would call `print` if it were ever spliced into the program unquoted -/
+def C13_injection : String := "'+str(print('PWNED'))+'"
+
+/-- a conditional with a string comparison, a tuple of strings and string group names -/
+def C13_exampleCond : Cond :=
+  .ifte (.cmp (.ident "country") .eq (.str "US"))
+    (.ret [⟨.str "control", .i 1⟩, ⟨.str "variant", .i 1⟩])
+    (.elif (.cmp (.ident "country") .isIn (.tuple [.str "CA", .str "MX"]))
+      (.ret [⟨.str "north", .i 3⟩])
+      (.else_ (.ret [⟨.str "other", .i 2⟩])))
+
+/-- a conditional the generator rejects: a group definition that is not a literal -/
+def C13_failingCond : Cond :=
+  .ifte (.cmp (.ident "country") .eq (.str "US"))
+    (.ret [⟨.str "control", .i 1⟩, ⟨.ident "oops", .i 1⟩])
+    .none
+
+private theorem dig1 : ¬ (PyVal.maxStrDigits < PyVal.natDigits 1) := by decide
+private theorem dig2 : ¬ (PyVal.maxStrDigits < PyVal.natDigits 2) := by decide
+private theorem dig3 : ¬ (PyVal.maxStrDigits < PyVal.natDigits 3) := by decide
+private theorem gen_strTerm : Generated.genCfg.strReprTerm = true := rfl
+private theorem gen_tuples : Generated.genCfg.tupleRecursive = true := rfl
+private theorem gen_eq : Generated.genCfg.op CmpOp.eq.name = "==" := by decide
+private theorem gen_in : Generated.genCfg.op CmpOp.isIn.name = "in" := by decide
+
+/-- the lines emitted for the example conditional -/
+theorem C13_example_lines :
+    bodyLines Generated.genCfg 2 C13_exampleCond = .ok
+      [(2, .ifL (.cmp (.name "country") "==" (.const (.str "US")))),
+       (3, .ret [.str "control", .str "variant"] [.i 1, .i 1]),
+       (2, .elifL (.cmp (.name "country") "in" (.tuple [.const (.str "CA"), .const (.str "MX")]))),
+       (3, .ret [.str "north"] [.i 3]),
+       (2, .elseL),
+       (3, .ret [.str "other"] [.i 2]),
+       (2, .raiseU)] := by
+  simp [C13_exampleCond, bodyLines, linesCond, linesSub, lowerPred, lowerTerm, lowerTerms,
+    lowerReturn, retVals, groupVal, readBack_repr, renderWeight, intStr, bind, Except.bind, pure,
+    Except.pure, dig1, dig2, dig3, gen_strTerm, gen_tuples, gen_eq, gen_in]
+
+/-- the lines emitted when every string of the example is replaced by the injection text:
+    the text sits inside single constants, the lines are otherwise the same -/
+theorem C13_example_lines_injected :
+    bodyLines Generated.genCfg 2 (substCond (fun _ => C13_injection) C13_exampleCond) = .ok
+      [(2, .ifL (.cmp (.name "country") "==" (.const (.str C13_injection)))),
+       (3, .ret [.str C13_injection, .str C13_injection] [.i 1, .i 1]),
+       (2, .elifL (.cmp (.name "country") "in"
+             (.tuple [.const (.str C13_injection), .const (.str C13_injection)]))),
+       (3, .ret [.str C13_injection] [.i 3]),
+       (2, .elseL),
+       (3, .ret [.str C13_injection] [.i 2]),
+       (2, .raiseU)] := by
+  simp [C13_exampleCond, substCond, substSub, substPred, substTerm, substTerms, substGroup,
+    bodyLines, linesCond, linesSub, lowerPred, lowerTerm, lowerTerms,
+    lowerReturn, retVals, groupVal, readBack_repr, renderWeight, intStr, bind, Except.bind, pure,
+    Except.pure, dig1, dig2, dig3, gen_strTerm, gen_tuples, gen_eq, gen_in]
+
+/-- the generator's error on the failing example -/
+theorem C13_failing_error :
+    bodyLines Generated.genCfg 2 C13_failingCond = .error (.other "group-definition-not-literal") := by
+  simp [C13_failingCond, bodyLines, linesCond, lowerPred, lowerTerm,
+    lowerReturn, retVals, groupVal, readBack_repr, intStr, bind, Except.bind, pure,
+    Except.pure, throw, throwThe, MonadExceptOf.throw, gen_strTerm, gen_eq]
+
+/-! ### the property -/
+
+/-- **Skeleton invariance.**  For every conditional `c` and every replacement `σ` of string
+    contents (applied to every string operand, tuple member and group name), if both the
+    original and the substituted source compile, then the emitted lines agree in everything
+    but the constants: line by line the same indentation, the same kind of statement, the
+    same names, the same operator texts, the same tuple shapes, the same number of groups and
+    the same weights (`maskILine` blanks exactly the constants).  No string content can add,
+    remove, re-indent or restructure a line. -/
+theorem C13_skeleton_invariant (cfg : GenCfg) (hc : CanonicalExpr cfg) (σ : String → String)
+    (c : Cond) (d : Nat) (L L' : List ILine) (h : bodyLines cfg d c = .ok L)
+    (h' : bodyLines cfg d (substCond σ c) = .ok L') : L.map maskILine = L'.map maskILine :=
+  bodyLines_subst_skeleton cfg hc (readBack_repr cfg) σ c d L L' h h'
+
+example :
+    ([(2, .ifL (.cmp (.name "country") "==" (.const (.str "US")))),
+      (3, .ret [.str "control", .str "variant"] [.i 1, .i 1]),
+      (2, .elifL (.cmp (.name "country") "in" (.tuple [.const (.str "CA"), .const (.str "MX")]))),
+      (3, .ret [.str "north"] [.i 3]),
+      (2, .elseL),
+      (3, .ret [.str "other"] [.i 2]),
+      (2, .raiseU)] : List ILine).map maskILine
+    = ([(2, .ifL (.cmp (.name "country") "==" (.const (.str C13_injection)))),
+      (3, .ret [.str C13_injection, .str C13_injection] [.i 1, .i 1]),
+      (2, .elifL (.cmp (.name "country") "in"
+            (.tuple [.const (.str C13_injection), .const (.str C13_injection)]))),
+      (3, .ret [.str C13_injection] [.i 3]),
+      (2, .elseL),
+      (3, .ret [.str C13_injection] [.i 2]),
+      (2, .raiseU)] : List ILine).map maskILine :=
+  C13_skeleton_invariant Generated.genCfg C02_generator_canonical (fun _ => C13_injection)
+    C13_exampleCond 2 _ _ C13_example_lines C13_example_lines_injected
+
+/-- **Compilation does not depend on string contents.**  The generator produces lines for a
+    source exactly when it produces lines for the source with every string replaced. -/
+theorem C13_compiles_regardless_of_string_contents (cfg : GenCfg) (hc : CanonicalExpr cfg)
+    (σ : String → String) (c : Cond) (d : Nat) :
+    (∃ L, bodyLines cfg d c = .ok L) ↔ (∃ L', bodyLines cfg d (substCond σ c) = .ok L') :=
+  bodyLines_subst_ok_iff cfg hc (readBack_repr cfg) σ c d
+
+example : ∃ L', bodyLines Generated.genCfg 2 (substCond (fun _ => C13_injection) C13_exampleCond) = .ok L' :=
+  (C13_compiles_regardless_of_string_contents Generated.genCfg C02_generator_canonical
+    (fun _ => C13_injection) C13_exampleCond 2).mp ⟨_, C13_example_lines⟩
+
+example : ∃ L, bodyLines Generated.genCfg 2 C13_exampleCond = .ok L :=
+  (C13_compiles_regardless_of_string_contents Generated.genCfg C02_generator_canonical
+    (fun _ => C13_injection) C13_exampleCond 2).mpr ⟨_, C13_example_lines_injected⟩
+
+/-- **Same error.**  When the generator rejects a source, it rejects the source with every
+    string replaced with the very same error, and conversely: no string content can cause
+    or suppress a generator error. -/
+theorem C13_same_error_regardless (cfg : GenCfg) (hc : CanonicalExpr cfg) (σ : String → String)
+    (c : Cond) (d : Nat) (err : Err) :
+    bodyLines cfg d c = .error err ↔ bodyLines cfg d (substCond σ c) = .error err :=
+  bodyLines_subst_error cfg hc (readBack_repr cfg) σ c d err
+
+example : bodyLines Generated.genCfg 2 (substCond (fun _ => C13_injection) C13_failingCond)
+    = .error (.other "group-definition-not-literal") :=
+  (C13_same_error_regardless Generated.genCfg C02_generator_canonical (fun _ => C13_injection)
+    C13_failingCond 2 _).mp C13_failing_error
+
+/-- **A rendered string is one token.**  Whatever the string contains, Python's tokenizer
+    consumes the rendered literal as a single string literal decoding to exactly that
+    string, and continues with exactly the character the generator wrote after it
+    (`)`, `,`, space, `]` or `+`): the literal cannot end early and cannot swallow what
+    follows. -/
+theorem C13_literal_is_one_token (cfg : GenCfg) (s : String) (c : Char) (rest : List Char)
+    (hcm : c ∈ [')', ',', ' ', ']', '+']) :
+    PyStrLit.pyScanStr ((renderStr cfg true s).toList ++ c :: rest) = some (s, c :: rest) := by
+  have h := C05_string_roundtrip_generated cfg.printable s c rest hcm
+  simpa [renderStr] using h
+
+example : PyStrLit.pyScanStr ((renderStr Generated.genCfg true C13_injection).toList ++ ')' :: ": \n".toList)
+    = some (C13_injection, ')' :: ": \n".toList) :=
+  C13_literal_is_one_token Generated.genCfg C13_injection ')' ": \n".toList (by decide)
+
+/-- **The salt is one value.**  The salt text, rendered with `repr()` and read back by
+    Python, reaches the key expression as exactly that string — one `str` value, whatever
+    it contains. -/
+theorem C13_salt_is_one_value (cfg : GenCfg) (s : String) : readBackStr cfg true s = .ok s :=
+  readBack_repr cfg s
+
+example : readBackStr Generated.genCfg Generated.genCfg.strReprSalt C13_injection = .ok C13_injection :=
+  C13_salt_is_one_value Generated.genCfg C13_injection
+
+/-- the injection text as a predicate operand is lowered to one constant holding that text -/
+example : lowerTerm Generated.genCfg (.str C13_injection) = .ok (.const (.str C13_injection)) := by
+  simp [lowerTerm, readBack_repr, gen_strTerm, bind, Except.bind, pure, Except.pure]
+
+/-- the injection text as a group name is one member of the population holding that text -/
+example : groupVal Generated.genCfg (.str C13_injection) = .ok (.str C13_injection) := by
+  simp [groupVal, readBack_repr, bind, Except.bind, pure, Except.pure]
+
+/-- a whole comparison against the injection text: one `==` of a name and one constant -/
+example : lowerPred Generated.genCfg (.cmp (.ident "country") .eq (.str C13_injection))
+    = .ok (.cmp (.name "country") "==" (.const (.str C13_injection))) := by
+  simp [lowerPred, lowerTerm, readBack_repr, gen_strTerm, gen_eq, bind, Except.bind, pure, Except.pure]
+
+
+/-- **table obligation**: every string of the source — operands and salt — is rendered with `repr()` -/
+theorem C13_all_strings_rendered_with_repr :
+    (Generated.genCfg.strReprTerm && Generated.genCfg.strReprSalt) = true := by decide
 
 end Pyab.Properties
